@@ -76,6 +76,7 @@ type shareProgram struct {
 	fillMode            int       // 0 arbitrary bit patterns, 1 ordinary values, 2 all zero, 3 one constant, 4 runs of equal samples
 	nest                bool      // views are obtained by slicing twice
 	build               int       // how the buffer came to be (see buildShared)
+	fillPart            int       // how much of it has ever been stored to
 	preOps              []shareOp // operations applied to the whole shared buffer before the tasks start (the buffer has a history)
 	preRole             []int
 	concFirst           bool // the concurrent execution comes before the sequential reference (state a library initialises on first use)
@@ -141,7 +142,8 @@ func drawShareProgram(prog *simrt.Stream, b Bounds) *shareProgram {
 	p.fillSeed = uint64(prog.Draw(1 << 30))
 	p.fillMode = prog.Draw(5)
 	p.nest = prog.Draw(3) == 2
-	p.build = prog.Draw(4)
+	p.build = prog.Draw(5)
+	p.fillPart = prog.Draw(3) // 0 everything, 1 the first half, 2 nothing: memory that was never stored to since it was allocated
 	p.concFirst = prog.Draw(2) == 1
 	for n := prog.Draw(4); n > 0; n-- {
 		// the buffer was used before it came to be shared: header state a
@@ -227,8 +229,14 @@ func drawShareProgram(prog *simrt.Stream, b Bounds) *shareProgram {
 			op := shareOp{}
 			if t.role == roleReader {
 				op.kind = prog.Draw(numReaderOps)
+				if huge && prog.Draw(2) == 1 {
+					op.kind = []int{rRead, rReadOther, rConv, rStriped}[prog.Draw(4)] // whole-buffer operations
+				}
 			} else {
 				op.kind = prog.Draw(numWriterOps)
+				if huge && prog.Draw(2) == 1 {
+					op.kind = []int{wWrite, wWriteOther, wConv, wStriped}[prog.Draw(4)]
+				}
 			}
 			op.a, op.b, op.c = uint64(prog.Draw(1<<16)), uint64(prog.Draw(1<<16)), uint64(prog.Draw(1<<16))
 			t.ops = append(t.ops, op)
@@ -266,6 +274,15 @@ func buildShared[T signal.SignalTypes](p *shareProgram) (big, shared *signal.Buf
 		length = p.frames // spare capacity beyond the length stays zero
 	}
 	n := p.c * length
+	switch p.fillPart {
+	case 1:
+		n /= 2
+	case 2:
+		n = 0
+	}
+	if p.build != 0 && p.build != 4 {
+		n = p.c * length // these ways of building define the length by what is appended
+	}
 	switch p.build {
 	case 1: // grown sample by sample
 		big = signal.Alloc[T](signal.Allocator{Channels: p.c, Length: 0, Capacity: p.bigFrames})
